@@ -149,6 +149,23 @@ func c06check(w *Worker, cs c06case, hook bool, idx int64) {
 		d.PArg = 2 // a negative '*' precision is reported as %!(BADPREC) before the operand: not part of x's rendering
 		cs.Dir = d
 	}
+	if (d.Verb == "p" || d.Verb == "w") && cs.Word[0] == 'U' && !cs.RV && !hasZeroMinus(d.String()) {
+		// not dispatched to the value at top level, but reported as a bad verb for an array that holds the wrapper:
+		// the printer then walks the array on its error path, where the wrapper must still be honoured
+		bc := newBuildCtx()
+		bc.memo = map[*D]interface{}{}
+		var x interface{}
+		built := false
+		func() {
+			defer func() { recover() }()
+			x = bc.realC06(cs.X)
+			built = true
+		}()
+		if built {
+			c06inContainer(w, cs, d, x, true)
+		}
+		return
+	}
 	if d.Verb == "T" || d.Verb == "p" || d.Verb == "w" {
 		return // not dispatched to the value (fmt treats them before anything else)
 	}
@@ -246,6 +263,12 @@ func c06check(w *Worker, cs c06case, hook bool, idx int64) {
 				return
 			}
 		}
+		if !cs.RV && idx%3 == 0 {
+			bc.resetCounters()
+			if !c06inContainer(w, cs, d, x, false) {
+				return
+			}
+		}
 	} else if !ownClassification(cs.X) {
 		if len(p.Env) != 0 {
 			w.Violate("C06 safe-enveloped", "envelope under Safe: "+q(out.out)+" for "+cs.String(), csf())
@@ -264,6 +287,34 @@ func c06check(w *Worker, cs c06case, hook bool, idx int64) {
 	if idx%70001 == 5 {
 		w.Sample(map[string]string{"case": cs.String(), "output_q": q(out.out)})
 	}
+}
+
+// c06inContainer: the wrapper as an element of a slice (or of an array, for the verbs that are reported for the array
+// as a whole): what is outside envelopes is the frame alone (brackets, or the bad-verb report), whatever x is and
+// whatever path the printer takes.
+func c06inContainer(w *Worker, cs c06case, d Dir, x interface{}, array bool) bool {
+	mk := func(v interface{}) interface{} {
+		if array {
+			return [1]interface{}{v}
+		}
+		return []interface{}{v}
+	}
+	in := sprintfWith(d, mk(wrap(cs.Word, x)))
+	frame := sprintfWith(d, mk(redact.Unsafe("")))
+	w.Eval(2)
+	if in.panicked || frame.panicked {
+		return true
+	}
+	pi, pf := parse(in.out), parse(frame.out)
+	if !pi.WellFormed || !pf.WellFormed {
+		return true
+	}
+	if si, sf := strings.ReplaceAll(safeOnly(pi), "\n", ""), strings.ReplaceAll(safeOnly(pf), "\n", ""); si != sf {
+		w.Violate("C06 unsafe-leak-in-container", "inside a container, text outside envelopes "+q(si)+" (the frame alone: "+q(sf)+") in "+q(in.out)+" for "+cs.String()+" [as element of "+sprintType(mk(nil))+"]", cs)
+		return false
+	}
+	w.Count("in_container_cases", 1)
+	return true
 }
 
 func c06randX(r *Rng, o genOpts) *D {
